@@ -129,12 +129,27 @@ impl<Meta> Archive<Meta> {
             return Err(ArchiveError::Corrupt("invalid magic").into())
         }
         let meta = ArchiveMeta::read(&mut file)?;
+        let file = Storage::new(file, writable)?;
 
-        Ok(Self {
-            file: Storage::new(file, writable)?,
-            meta,
-            marker: PhantomData,
-        })
+        // There needs to be at least one bucket and the index has to be
+        // within the file.
+        let index_end = meta.bucket_count.checked_add(1).and_then(|count| {
+            count.checked_mul(Self::BUCKET_SIZE)
+        }).and_then(|size| {
+            u64::try_from(size).ok()
+        }).and_then(|size| {
+            size.checked_add(usize_to_u64(MAGIC_SIZE) + ArchiveMeta::size())
+        });
+        match index_end {
+            Some(end) if meta.bucket_count > 0 && end <= file.size => { }
+            _ => {
+                return Err(
+                    ArchiveError::Corrupt("invalid bucket count").into()
+                )
+            }
+        }
+
+        Ok(Self { file, meta, marker: PhantomData })
     }
 
     /// Verifies the consistency of an archive.
